@@ -239,7 +239,12 @@ Definition ca_flow (tus : list string) (clients : list client) (now : Z) (a : ca
   | inl e => {| f_pre := inl e; f_mid := inl e; f_kerr := EJtiKnown; f_post := Rej e |}
   | inr (cid, j) =>
       {| f_pre := inr (Some j);
-         f_mid := match to_int64 (ca_exp a) with Some e => inr e | None => inl EInvalidClient end;
+         (* the exp type switch, then (fix 3e32ae1) the expiry instant judged as the replay memory judges
+            it: time.Unix(expiry, 0).Before(time.Now()) => invalid_client, before the test-and-set *)
+         f_mid := match to_int64 (ca_exp a) with
+                  | Some e => if before_now now e then inl EInvalidClient else inr e
+                  | None => inl EInvalidClient
+                  end;
          f_kerr := EJtiKnown;
          f_post := if aud_matches (ca_aud a) tus then Acc cid "" else Rej EInvalidClient |}
   end.
